@@ -9,39 +9,7 @@
 From Coq Require Import List NArith Bool Arith Lia.
 Import ListNotations.
 From V.C04 Require Import Model.
-From V.Stmt Require Import Model.
-
-Fixpoint cmp (e : ast) : bool :=
-  let all (l : list ast) : bool := forallb cmp l in
-  let opt (x : ast) : bool := match x with ENil => true | _ => cmp x end in
-  match e with
-  | ENil => false
-  | EAtom _ | EIdentStr _ | ENullLit | ENullVal | SBreak _ | SContinue _ => true
-  | EBin _ l r => cmp l && cmp r
-  | EAsg _ l r => cmp l && cmp r
-  | EUn _ x | EPreInc _ x | EPostInc _ x => cmp x
-  | ETern c t f => cmp c && cmp t && cmp f
-  | EIndex a i => cmp a && cmp i
-  | ECallFn _ args | ENew _ args => all args
-  | ECallExpr f args => cmp f && all args
-  | EArray els => all els
-  | EKv ps => forallb (fun p => let '(k, v) := p in cmp k && cmp v) ps
-  | EVarList vs => all vs
-  | EList l => all l
-  | SEcho es => all es
-  | SIf c th elifs el => cmp c && all th && forallb (fun p => let '(c2, b) := p in cmp c2 && all b) elifs && all el
-  | SWhile c b | SDoWhile c b => cmp c && all b
-  | SFor i c n b => all i && opt c && all n && all b             (* the condition may be absent *)
-  | SForeach a k v b => cmp a && opt k && cmp v && all b         (* the key may be absent *)
-  | SSwitch c cases d => cmp c && forallb (fun p => let '(v, b) := p in cmp v && all b) cases && all d
-  | SReturn v => opt v                                            (* `return;` *)
-  | SReturns vs => all vs
-  | SThrow v => cmp v
-  | STry b cs f => all b && forallb (fun p => let '(_, v, cb) := p in opt v && all cb) cs && all f   (* catch without a variable *)
-  | SFunc _ ps b => forallb (fun p => let '(_, d) := p in opt d) ps && all b                        (* parameter without a default *)
-  end.
-
-Definition optc (v : ast) : bool := is_nil v || cmp v.
+From V.Stmt Require Import Model Spec Proofs.
 
 Lemma is_nil_true v : is_nil v = true -> v = ENil.
 Proof. destruct v; cbn; congruence. Qed.
@@ -64,6 +32,7 @@ Lemma foreach_target_cmp v a : foreach_target v = Some a -> cmp a = true.
 Proof. destruct v; try discriminate. destruct a0; try discriminate. intros H. injection H as <-. reflexivity. Qed.
 
 (* ---------- specifications ---------- *)
+
 Definition sat (P : ast -> st -> Prop) (r : res) : Prop := match r with Ok v s' => P v s' | _ => True end.
 
 Definition nilat (s : st) : Prop :=
@@ -73,7 +42,7 @@ Definition pairs_opt (ps : list (ast * ast)) : bool := forallb (fun p => let '(k
 Definition param_ok (p : ast) : bool := match p with EAsg AEq (EAtom (AVar _)) d => optc d | _ => false end.
 Definition elifs_ok (l : list (ast * list ast)) : bool := forallb (fun p => let '(c, b) := p in cmp c && forallb cmp b) l.
 Definition catches_ok (l : list (list nat * ast * list ast)) : bool :=
-  forallb (fun p => let '(_, v, cb) := p in optc v && forallb cmp cb) l.
+  forallb (fun p => let '(_, v, cb) := p in (match v with ENil => true | _ => cmp v end) && forallb cmp cb) l.
 Definition is_list_of (P : ast -> bool) (v : ast) : Prop := exists l, v = EList l /\ forallb P l = true.
 
 Definition pre (m : mode) (s : st) : Prop :=
@@ -155,6 +124,27 @@ Proof. intros [_ H] E. rewrite E in H. discriminate. Qed.
 Lemma nilat_not_q s : nilat s -> cur s = SQ -> False.
 Proof. intros [_ H] E. rewrite E in H. discriminate. Qed.
 
+Lemma index_pairs_opt l : forall i, forallb cmp l = true -> forallb (fun p : ast * ast => let '(k, v) := p in optc k && optc v) (index_pairs i l) = true.
+Proof.
+  induction l as [|x l IHl]; intros i H; [reflexivity|]. cbn [index_pairs forallb] in *. rewrite andb_true_iff in H. destruct H as [A B].
+  rewrite (cmp_optc x A). cbn. apply IHl. exact B.
+Qed.
+
+Lemma optc_all_cmp l : forallb optc l = true -> existsb is_nil l = false -> forallb cmp l = true.
+Proof.
+  induction l as [|x l IHl]; [reflexivity|]. cbn [forallb existsb]. rewrite andb_true_iff, orb_false_iff. intros [A B] [C D].
+  rewrite (optc_cmp x A C). apply IHl; assumption.
+Qed.
+
+Lemma func_params_ok l : forallb param_ok l = true ->
+  forallb (fun p : nat * ast => let '(_, d) := p in match d with ENil => true | _ => cmp d end) (func_params (EList l)) = true.
+Proof.
+  unfold func_params. cbn [as_list]. induction l as [|x l IHl]; [reflexivity|]. cbn [forallb map]. rewrite andb_true_iff. intros [A B].
+  rewrite (IHl B), andb_true_r. unfold param_ok in A.
+  destruct x; try discriminate. destruct a; try discriminate. destruct x1; try discriminate. destruct a; try discriminate.
+  rewrite opt_optc. exact A.
+Qed.
+
 (* ---------- the step lemma ---------- *)
 Ltac b2p :=
   unfold is_list_of, pairs_opt, elifs_ok, catches_ok in *;
@@ -164,6 +154,10 @@ Ltac b2p :=
   | H : EList _ = EList _ |- _ => injection H as H; subst
   | H : ?v = EList _ |- _ => is_var v; subst v
   | H : is_nil ?v = true |- _ => apply is_nil_true in H; subst v
+  | H : ?v = ENil |- _ => is_var v; subst v
+  | H : ?a = ?a -> _ |- _ => specialize (H eq_refl)
+  | H : true = true |- _ => clear H
+  | H : ?x = ?y |- _ => is_var x; is_var y; subst x
   end;
   repeat (progress (cbn [cmp forallb is_nil rev app fst snd param_ok as_list optc orb andb negb map] in *;
                     rewrite ?forallb_rev, ?forallb_app, ?opt_optc, ?andb_true_iff, ?andb_true_r in * )).
@@ -176,10 +170,39 @@ Ltac fin1 :=
   | H : _ /\ _ |- _ => destruct H
   end.
 
+(* the operand parsed right after an operator token is not nil: missingOperand refuses *)
+Ltac opnil :=
+  match goal with
+  | H : optc ?v = true, H0 : ?v = ENil -> _ |- cmp ?v = true =>
+      let N := fresh "N" in let M := fresh "M" in
+      destruct (is_nil v) eqn:N;
+      [ exfalso; apply is_nil_true in N; destruct (H0 N) as [_ [[M _] _]];
+        first [ erewrite missing_after_bin in M by eassumption; discriminate
+              | erewrite missing_after_asg in M by eassumption; discriminate ]
+      | apply (optc_cmp v H N) ]
+  end.
+
+(* a nil left operand in front of an operator token: missingOperand refuses *)
+Ltac accnil :=
+  match goal with
+  | H : optc ?v = true, H0 : ?v = ENil -> _ |- cmp ?v = true =>
+      let N := fresh "N" in let X := fresh "X" in let Q := fresh "Q" in
+      destruct (is_nil v) eqn:N;
+      [ exfalso; apply is_nil_true in N; destruct (H0 N) as [-> [X _]];
+        first [ match goal with E : cur _ = SBin _ |- _ => destruct (nilat_bin _ _ X E) as [Q _]; discriminate Q end
+              | eapply nilat_not_asg; eassumption | eapply nilat_not_elvis; eassumption
+              | eapply nilat_not_q; eassumption | eapply nilat_not_atom; eassumption ]
+      | apply (optc_cmp v H N) ]
+  end.
+
 Ltac fin :=
+  repeat match goal with |- context [if is_nil ?v then _ else _] => let E := fresh "E" in destruct (is_nil v) eqn:E end;
   b2p; repeat (fin1; b2p);
   try solve [ assumption | reflexivity | discriminate | congruence
             | apply cmp_optc; assumption | apply optc_cmp; assumption | apply vars_cmp; assumption | apply var_cmp; assumption
+            | opnil | accnil
+            | apply func_params_ok; assumption
+            | apply index_pairs_opt; rewrite ?forallb_rev; assumption
             | eapply foreach_target_cmp; eassumption | apply cmp_optc; eapply foreach_target_cmp; eassumption
             | match goal with H : optc ?v = true, E : is_nil ?v = false |- _ => rewrite (optc_cmp v H E); reflexivity end ].
 
@@ -198,27 +221,27 @@ Ltac go2 :=
   | |- sat _ Crash => exact I
   | |- sat _ (rec ?m ?x) =>
       eapply sat_weaken; [| apply (IH m x); cbn [pre]; fin];
-      let v := fresh "v" in let y := fresh "y" in let Hp := fresh "Hp" in
-      cbn beta; intros v y Hp; cbn [post] in Hp; fin
+      [ let v := fresh "v" in let y := fresh "y" in let Hp := fresh "Hp" in
+        cbn beta; intros v y Hp; cbn [post] in Hp; fin | idtac .. ]
   | |- sat _ (bind (Ok _ _) _) => cbn [bind]; go2
   | |- sat _ (bind (if ?c then _ else _) _) => let E := fresh "E" in destruct c eqn:E; go2
   | |- sat _ (nil_err (if ?c then _ else _) _) => let E := fresh "E" in destruct c eqn:E; go2
   | |- sat _ (bind (rec ?m ?x) _) =>
-      eapply (sat_bind (post m x)); [apply (IH m x); cbn [pre]; fin |];
+      eapply (sat_bind (post m x)); [apply (IH m x); cbn [pre]; fin |
       let v := fresh "v" in let y := fresh "y" in let Hp := fresh "Hp" in
-      intros v y Hp; cbn [post] in Hp; lazymatch type of Hp with is_list_of _ _ => destruct Hp as [? [-> Hp]]; cbn [as_list] | _ => idtac end; go2
+      intros v y Hp; cbn [post] in Hp; lazymatch type of Hp with is_list_of _ _ => destruct Hp as [? [-> Hp]]; cbn [as_list] | _ => idtac end; go2]
   | |- sat _ (nil_err (rec ?m ?x) _) =>
-      eapply (sat_nil_err (post m x)); [apply (IH m x); cbn [pre]; fin |];
+      eapply (sat_nil_err (post m x)); [apply (IH m x); cbn [pre]; fin |
       let v := fresh "v" in let y := fresh "y" in let Hp := fresh "Hp" in let N := fresh "N" in
-      intros v y Hp N; cbn [post] in Hp; go2
+      intros v y Hp N; cbn [post] in Hp; go2]
   | |- sat _ (bind ?r _) =>
-      eapply (sat_bind (fun v _ => optc v = true)); [sub2 |];
+      eapply (sat_bind (fun v _ => optc v = true)); [sub2 |
       let v := fresh "v" in let y := fresh "y" in let Hp := fresh "Hp" in
-      cbn beta; intros v y Hp; go2
+      cbn beta; intros v y Hp; go2]
   | |- sat _ (nil_err ?r _) =>
-      eapply (sat_nil_err (fun v _ => optc v = true)); [go2 |];
+      eapply (sat_nil_err (fun v _ => optc v = true)); [go2 |
       let v := fresh "v" in let y := fresh "y" in let Hp := fresh "Hp" in let N := fresh "N" in
-      cbn beta; intros v y Hp N; go2
+      cbn beta; intros v y Hp N; go2]
   | |- sat (fun v _ => cmp v = true) (postfix _ _) => apply sat_postfix; go2
   | |- sat _ (postfix _ _) => eapply sat_weaken; [| apply sat_postfix; go2]; cbn beta; intros; fin
   | |- sat (fun v _ => cmp v = true) (kv_ret _ _) => apply sat_kv_ret; fin
@@ -329,7 +352,15 @@ Proof. unfold pre, post. intros Hpre. unfold step_switchloop. cbv zeta. go2. Qed
 Lemma c_step_casebody b acc s : pre (CaseBody b acc) s -> sat (post (CaseBody b acc) s) (step_casebody rec b acc s).
 Proof. unfold pre, post. intros Hpre. unfold step_casebody. cbv zeta. go2. Qed.
 Lemma c_step_returns acc s : pre (Returns acc) s -> sat (post (Returns acc) s) (step_returns rec acc s).
-Proof. unfold pre, post. intros Hpre. unfold step_returns. go2. Qed.
+Proof.
+  unfold pre, post. intros [H1 H2]. unfold step_returns. destruct (is_comma (cur s)) eqn:E.
+  - eapply (sat_bind (post Stmt (next s))); [apply (IH Stmt); exact I|]. intros v y Hp. cbn [post] in Hp.
+    destruct (is_nil v || existsb is_nil acc) eqn:E0; [exact I|]. apply orb_false_iff in E0 as [A B].
+    eapply sat_weaken; [|apply (IH (Returns (v :: acc)) y)]; [auto|]. cbn [pre forallb].
+    assert (C : forallb cmp acc = true) by (apply optc_all_cmp; assumption).
+    split; [rewrite Hp, H1; reflexivity | intros _; rewrite (optc_cmp v Hp A), C; reflexivity].
+  - cbn [sat cmp]. rewrite forallb_rev. apply H2. reflexivity.
+Qed.
 Lemma c_step_catches b acc s : pre (Catches b acc) s -> sat (post (Catches b acc) s) (step_catches rec b acc s).
 Proof. unfold pre, post. intros Hpre. unfold step_catches. cbv zeta. go2. Qed.
 Lemma c_step_catchtypes acc s : sat (post (CatchTypes acc) s) (step_catchtypes rec acc s).
@@ -343,4 +374,114 @@ Proof. unfold post. unfold step_pfunc. cbv zeta. go2. Qed.
 Lemma c_step_ploop acc s : pre (PLoop acc) s -> sat (post (PLoop acc) s) (step_ploop rec acc s).
 Proof. unfold pre, post. intros Hpre. unfold step_ploop. go2. Qed.
 
+Ltac accnil_asg H4 E :=
+  match goal with
+  | H3 : optc ?acc = true |- cmp ?acc = true =>
+      let N := fresh "N" in destruct (is_nil acc) eqn:N;
+      [ exfalso; apply is_nil_true in N; eapply nilat_not_asg; [apply H4; exact N | exact E] | apply optc_cmp; assumption ]
+  end.
+
+Lemma c_step_uloop acc s : pre (ULoop acc) s -> sat (post (ULoop acc) s) (step_uloop rec acc s).
+Proof.
+  unfold pre, post. intros [H3 H4]. unfold step_uloop.
+  destruct (cur s) eqn:E; try (cbn [sat]; split; [exact H3 | intros N; split; [reflexivity | exact N]]).
+  assert (Ca : cmp acc = true) by accnil_asg H4 E.
+  eapply (sat_bind (post (Lvl 0) (next s))); [apply (IH (Lvl 0)); exact I|]. intros v y [Hv Hn].
+  assert (Cv : cmp v = true) by opnil.
+  eapply sat_weaken; [| apply (IH (ULoop (EAsg a acc v)) y)].
+  - intros v0 y0 [A B]. split; [exact A | intros N; destruct (B N) as [_ X]; discriminate].
+  - cbn [pre]. split; [unfold optc; cbn [is_nil cmp]; rewrite Ca, Cv; reflexivity | intros X; discriminate].
+Qed.
+
+Lemma c_step_aloop acc s : pre (ALoop acc) s -> sat (post (ALoop acc) s) (step_aloop rec acc s).
+Proof.
+  unfold pre, post. intros [H3 H4]. unfold step_aloop.
+  destruct (cur s) eqn:E; try (cbn [sat]; split; [exact H3 | intros N; split; [reflexivity | exact N]]).
+  assert (Ca : cmp acc = true) by accnil_asg H4 E.
+  eapply (sat_bind (post (Lvl 0) (next s))); [apply (IH (Lvl 0)); exact I|]. intros v y [Hv Hn].
+  assert (Cv : cmp v = true) by opnil.
+  eapply sat_weaken; [| apply (IH (ALoop (EAsg a acc v)) y)].
+  - intros v0 y0 [A B]. split; [exact A | intros N; destruct (B N) as [_ X]; discriminate].
+  - cbn [pre]. split; [unfold optc; cbn [is_nil cmp]; rewrite Ca, Cv; reflexivity | intros X; discriminate].
+Qed.
+
+Lemma c_step_loop n acc s : pre (Loop n acc) s -> sat (post (Loop n acc) s) (step_loop rec n acc s).
+Proof.
+  unfold pre, post. intros [H3 H4]. unfold step_loop.
+  assert (Triv : sat (fun v s' => optc v = true /\ (v = ENil -> s' = s /\ acc = ENil)) (Ok acc s))
+    by (cbn [sat]; split; [exact H3 | intros N; split; [reflexivity | exact N]]).
+  destruct (cur s) as [a| o | | | | | | | | | | | | | | | | | | | | |] eqn:E; try exact Triv.
+  - (* a signed number where an operator could be: the accumulator is an operand *)
+    destruct a as [|neg k| | | |]; try exact Triv. destruct neg; [|exact Triv]. destruct (n =? 12) eqn:En; [|exact Triv].
+    destruct (rest s) eqn:R; [exact I|].
+    assert (Ca : acc <> ENil) by (intros N; destruct (H4 N) as [X _]; eapply nilat_not_atom; eassumption).
+    eapply sat_weaken; [| apply (IH (Loop 12 acc) (split_signed k s))].
+    + intros v0 y0 [A B]. split; [exact A | intros N; destruct (B N) as [_ X]; contradiction].
+    + cbn [pre]. split; [exact H3 | intros X; contradiction].
+  - destruct (level o =? n) eqn:El; [|exact Triv].
+    assert (Ca : cmp acc = true).
+    { destruct (is_nil acc) eqn:N; [exfalso | apply optc_cmp; assumption]. apply is_nil_true in N. destruct (H4 N) as [X Y].
+      destruct (nilat_bin s o X E) as [-> _]. apply Nat.eqb_eq in El. cbn in El. apply (Y eq_refl). symmetry. exact El. }
+    eapply (sat_bind (post (Lvl (S n)) (next s))); [apply (IH (Lvl (S n))); exact I|]. intros v y [Hv Hn].
+    assert (Cv : cmp v = true) by opnil.
+    eapply sat_weaken; [| apply (IH (Loop n (EBin o acc v)) y)].
+    + intros v0 y0 [A B]. split; [exact A | intros N; destruct (B N) as [_ X]; discriminate].
+    + cbn [pre]. split; [unfold optc; cbn [is_nil cmp]; rewrite Ca, Cv; reflexivity | intros X; discriminate].
+Qed.
+
+Lemma c_step_prim n s : 17 <= n -> sat (post (Lvl n) s) (step_prim rec s).
+Proof.
+  intros Hn. unfold post, step_prim. cbv zeta. go2.
+  all: try solve [ unfold nilat; match goal with E : cur ?s = _ |- _ => rewrite E end; split; [assumption | reflexivity]
+                 | exfalso; lia ].
+Qed.
+
+Lemma c_step_unary s : sat (post (Lvl 15) s) (step_unary rec s).
+Proof. unfold post, step_unary. go2. all: exfalso; lia. Qed.
+
+Lemma c_step_pow s : sat (post (Lvl 16) s) (step_pow rec s).
+Proof. unfold post, step_pow. cbv zeta. go2. all: exfalso; lia. Qed.
+
+Lemma c_step_tern s : sat (post (Lvl 1) s) (step_tern rec s).
+Proof. unfold post, step_tern. go2. all: match goal with H : _ -> cur _ <> _ |- _ => apply H; lia end. Qed.
+
+Lemma c_step_assign s : sat (post (Lvl 0) s) (step_assign rec s).
+Proof. unfold post, step_assign. go2. all: match goal with H : _ -> cur _ <> _ |- _ => apply H; lia end. Qed.
+
+Lemma c_step_lvl n s : sat (post (Lvl n) s) (step_lvl rec n s).
+Proof.
+  unfold step_lvl. pose proof (kind_spec n) as P. destruct (kind n) eqn:Hk.
+  - subst n. apply c_step_assign.
+  - subst n. apply c_step_tern.
+  - assert (N10 : n <> 10) by (intros ->; cbn in Hk; discriminate).
+    unfold post. go2. all: first [ exact N10 | match goal with H : _ -> cur _ <> _ |- _ => apply H; lia end ].
+  - subst n. unfold post. go2. all: match goal with H : _ -> cur _ <> _ |- _ => apply H; lia end.
+  - subst n. unfold post. go2.
+    all: try intros C;
+      match goal with C : cur ?s = SBin OLt, X : nilat ?s, E : _ = false |- _ =>
+        exfalso; destruct (nilat_bin s OLt X C) as [_ [i Pk]]; rewrite C, Pk in E; discriminate end.
+  - subst n. unfold post. go2. all: exfalso; lia.
+  - subst n. apply c_step_unary.
+  - subst n. apply c_step_pow.
+  - apply c_step_prim. exact P.
+Qed.
+
+Lemma c_step m s : pre m s -> sat (post m s) (step rec m s).
+Proof.
+  destruct m; intros Hpre; cbn [step];
+  first [ apply c_step_program | apply c_step_stmt | apply c_step_mainstmt | apply c_step_lvl | apply c_step_loop
+        | apply c_step_uloop | apply c_step_aloop | apply c_step_ploop | apply c_step_commalist
+        | apply c_step_suffix | apply c_step_args | apply c_step_block | apply c_step_blockloop
+        | apply c_step_arraftercomma | apply c_step_arrskip | apply c_step_kvloop | apply c_step_kvloopcomma
+        | apply c_step_jsonloop | apply c_step_jsonloopb | apply c_step_echoloop | apply c_step_elseifs
+        | apply c_step_ifcond | apply c_step_forinits | apply c_step_forincs | apply c_step_switchloop
+        | apply c_step_casebody | apply c_step_returns | apply c_step_catches | apply c_step_catchtypes
+        | apply c_step_params | apply c_step_plbrace | apply c_step_pfunc ]; try exact Hpre.
+Qed.
+
 End StepC.
+
+Theorem parse_complete : forall f m s, pre m s -> sat (post m s) (parse f m s).
+Proof.
+  induction f as [|f IHf]; intros m s Hpre; [exact I|]. cbn [parse]. apply c_step; [|exact Hpre]. exact IHf.
+Qed.
